@@ -878,8 +878,16 @@ theorem gc_delete_aux (hlen : ∀ x, (H x).length = 32) (hPS : ∀ x, P x → St
               Gc.short (k2 := k2) (k3 := k3) (tcf2 := b) hrep0 hup hlen h8
             cases h6 with
             | nil =>
-              exact ⟨rfl, rfl, by simp, ⟨by simp, trivial⟩, fun _ => rfl, _, rfl,
-                Rep.short _ _ _ true tc _ Rep.nil (by simp), h7, hg _ _ _⟩
+              -- the child of a uniform short node is a value (then `K2 = []`) or a branch (never deleted to nothing)
+              exfalso
+              cases tc' with
+              | none => simp [PT.isVB] at hvb
+              | short _ _ => simp [PT.isVB] at hvb
+              | value vv vw =>
+                simp only [Uniform] at huc
+                have : K2.length ≠ 0 := by simpa using hK
+                omega
+              | branch bch => exact PT.delete_branch_ne bch K2 h5
             | empty => exact absurd rfl h3
             | ref t0 hn0 hst0 => simp [isRef] at h2
             | value vh vv vw vd hcl0 =>
